@@ -118,6 +118,20 @@ func RestfulAPIPutOne(collName string, filter bson.M, putData map[string]interfa
 	return
 }
 
+// Credit is the external account writer (web console): one atomic increment of a stored quota - the most benign
+// form such a writer can take.  One gate, like every other database operation.
+func Credit(collName string, ueId string, rg int32, amount int64) {
+	dbMon.Do("db.Credit", fmt.Sprint(ueId, "/", rg), nil, func() {
+		for _, d := range Docs[collName] {
+			if d["ueId"] == ueId && fmt.Sprint(d["ratingGroup"]) == fmt.Sprint(rg) {
+				var q int64
+				fmt.Sscan(fmt.Sprint(d["quota"]), &q)
+				d["quota"] = fmt.Sprint(q + amount)
+			}
+		}
+	})
+}
+
 func Dump() string {
 	var s []string
 	for c, ds := range Docs {
